@@ -562,6 +562,9 @@ package derive
 
 //@ func IsError(t types.Type) (r bool)
 //@ abstract: pred
+// exactly the predeclared error type (what generated signatures spell for function results)
+//@ func IsErrorType(t types.Type) (r bool)
+//@ abstract: pred
 
 //@ extern func strings.Compare(a string, b string) (r int)
 //@ pure
